@@ -95,7 +95,22 @@ func adversarial(t *rapid.T) string {
 		}
 		return "\n"
 	}
-	switch rapid.IntRange(0, 12).Draw(t, "shape") {
+	switch rapid.IntRange(0, 13).Draw(t, "shape") {
+	case 13: // a long (but acceptable) EQU value named many times by one operand, EQU value or FOR count
+		w := rapid.SampledFrom([]int{2047, 1000, 2040, 300}).Draw(t, "wide")
+		refs := rapid.SampledFrom([]int{600, 3, 50, 2000, 4000}).Draw(t, "refs")
+		base := "x equ 0" + strings.Repeat("+0", w) + "\n"
+		sum := "1" + strings.Repeat("+x", refs)
+		switch rapid.IntRange(0, 3).Draw(t, "wuse") {
+		case 0:
+			return base + "dat " + sum + nl()
+		case 1:
+			return base + "y equ " + sum + "\ndat y" + nl()
+		case 2:
+			return base + "for " + sum + "\ndat 0\nrof" + nl()
+		default:
+			return base + ";assert " + sum + "\ndat 0" + nl()
+		}
 	case 0: // EQU cycle of length 1..4, with or without an assert that mentions it
 		n := rapid.IntRange(1, 4).Draw(t, "cyc")
 		var sb strings.Builder
@@ -345,7 +360,7 @@ func judgeTermCase(t testing.TB) func(c termCase, rec *hx.Rec) string {
 	}
 }
 
-const c05Rule = "inputs: valid programs (C03 and C08 generators), 1..6 token/byte mutations of them (delete/duplicate/transpose/replace/insert vocabulary words, line splices, truncation, NUL/^Z/0xFF/lone 0xC3/CR injection, CRLF, final newline removed, huge numbers), token soup, structured adversarial shapes (EQU cycles with and without ;assert, FOR with undefined/ill-formed counts, lexer errors inside FOR bodies, missing/stray/unterminated ROF, long EQU chains, diamond EQU graphs, very long lines, hundreds of labels, pseudo-ops in odd places, counters in counts) and mutations of those; both dialects x {nano, tiny, 8000, 8192/300, 2^34} configurations. Inputs whose own expansion estimate exceeds 2*10^4 tokens are discarded (counted). Each case runs in an isolated worker process: must return within 5 s (a timeout is confirmed once with 30 s; otherwise 'slow, inconclusive'), not panic, not kill the process, stay under a 256 MiB heap, return error xor warrior (error => zero WarriorData; success => non-nil Code), and leave no goroutine with a gmars frame after a 200 ms settle loop. Non-trivial: contains FOR/EQU/;assert and is mutated, or is adversarial-shaped; distinct by case hash."
+const c05Rule = "inputs: valid programs (C03 and C08 generators), 1..6 token/byte mutations of them (delete/duplicate/transpose/replace/insert vocabulary words, line splices, truncation, NUL/^Z/0xFF/lone 0xC3/CR injection, CRLF, final newline removed, huge numbers), token soup, structured adversarial shapes (EQU cycles with and without ;assert, FOR with undefined/ill-formed counts, lexer errors inside FOR bodies, missing/stray/unterminated ROF, long EQU chains, diamond EQU graphs, a 2048-term EQU named thousands of times by one expression, very long lines, hundreds of labels, pseudo-ops in odd places, counters in counts) and mutations of those; both dialects x {nano, tiny, 8000, 8192/300, 2^34} configurations. Inputs whose own expansion estimate exceeds 2*10^4 tokens are discarded (counted). Each case runs in an isolated worker process: must return within 5 s (a timeout is confirmed once with 30 s; otherwise 'slow, inconclusive'), not panic, not kill the process, stay under a 256 MiB heap, return error xor warrior (error => zero WarriorData; success => non-nil Code), and leave no goroutine with a gmars frame after a 200 ms settle loop. Non-trivial: contains FOR/EQU/;assert and is mutated, or is adversarial-shaped; distinct by case hash."
 
 func TestC05(t *testing.T) {
 	defer func() {
@@ -483,6 +498,34 @@ func scaleText(family string, n int) string {
 		for i := 0; i < n; i++ {
 			fmt.Fprintf(&sb, "l%d: dat l%d\n", i, (i+n-1)%n)
 		}
+	case "for_blocks_chain": // n/40 blocks whose counts go through an EQU chain of depth n/8
+		d := n / 8
+		sb.WriteString("a0 equ 1\n")
+		for i := 1; i <= d; i++ {
+			fmt.Fprintf(&sb, "a%d equ a%d\n", i, i-1)
+		}
+		for i := 0; i < n/40; i++ {
+			fmt.Fprintf(&sb, "for a%d\ndat 0\nrof\n", d)
+		}
+	case "nested_depth": // n/80 blocks inside one another around n plain lines
+		d := n / 80
+		sb.WriteString(strings.Repeat("for 1\n", d))
+		for i := 0; i < n; i++ {
+			sb.WriteString("dat 0\n")
+		}
+		sb.WriteString(strings.Repeat("rof\n", d))
+	case "wide_substitution": // one operand that names a 4095-token EQU n/8 times (refused: too long)
+		sb.WriteString("x equ 0" + strings.Repeat("+0", 2047) + "\ndat 1")
+		for i := 0; i < n/8; i++ {
+			sb.WriteString("+x")
+		}
+		sb.WriteString("\n")
+	case "wide_substitution_count": // the same in a FOR count
+		sb.WriteString("x equ 0" + strings.Repeat("+0", 2047) + "\nfor 1")
+		for i := 0; i < n/8; i++ {
+			sb.WriteString("+x")
+		}
+		sb.WriteString("\ndat 0\nrof\n")
 	case "for_counter_labels": // n/40 labelled blocks whose labels are used
 		for i := 0; i < n/40; i++ {
 			fmt.Fprintf(&sb, "b%d i for 2\ndat i, b%d\nrof\n", i, i)
@@ -495,7 +538,7 @@ func scaleText(family string, n int) string {
 }
 
 var scaleFamilies = []string{"for_blocks", "for_blocks_equ", "equ_chain", "equ_fanout", "equ_many", "labels", "lines", "comments", "for_flat", "one_label_many_names",
-	"strategy_lines", "name_lines", "assert_lines", "nested_for", "gap_labels", "equ_use", "long_exprs", "end_expr", "equ_chain_uses", "colon_labels", "for_counter_labels"}
+	"strategy_lines", "name_lines", "assert_lines", "nested_for", "gap_labels", "equ_use", "long_exprs", "end_expr", "equ_chain_uses", "colon_labels", "for_counter_labels", "for_blocks_chain", "nested_depth", "wide_substitution", "wide_substitution_count"}
 
 var scaleSizes = []int{12000, 16000, 14000}
 
@@ -565,7 +608,7 @@ func judgeScaleCase(t testing.TB) func(c scaleCase, rec *hx.Rec) string {
 	}
 }
 
-const c05ScalingRule = "time proportional to input size: every structured family (n/40 sequential FOR blocks among plain lines, the same after n/4 unrelated EQU lines, labelled blocks whose labels are used, three nested blocks with n copies, one flat FOR of n, EQU chain of depth n, one EQU referring to n symbols, n independent EQUs, one EQU used by n lines, a 20-deep EQU chain used by n lines, n labelled lines (plain and colon form), n label names on one instruction, n labels each followed by a comment line, n plain lines, long sums on every tenth line, END with a label after n lines, n comment lines, n ;strategy lines, n ;name/;author lines, n ;assert lines) is assembled at n and at 5n (n in {12000, 14000, 16000}: the quick tier takes one size per family chosen by the seed, the thorough tier all three) in the isolated worker under a valid configuration (core 2^34, length limit 2^30); it is a violation when the larger run takes more than 300 ms and more than 12 times the smaller one (linear: about 5, quadratic: 25) and still does after re-measuring both (best of three). Every case is non-trivial; distinct by (family, n)."
+const c05ScalingRule = "time proportional to input size: every structured family (n/40 sequential FOR blocks among plain lines, the same with counts that go through an EQU chain of depth n/8, n/80 blocks inside one another, one operand or FOR count naming a 4095-token EQU n/8 times, the same after n/4 unrelated EQU lines, labelled blocks whose labels are used, three nested blocks with n copies, one flat FOR of n, EQU chain of depth n, one EQU referring to n symbols, n independent EQUs, one EQU used by n lines, a 20-deep EQU chain used by n lines, n labelled lines (plain and colon form), n label names on one instruction, n labels each followed by a comment line, n plain lines, long sums on every tenth line, END with a label after n lines, n comment lines, n ;strategy lines, n ;name/;author lines, n ;assert lines) is assembled at n and at 5n (n in {12000, 14000, 16000}: the quick tier takes one size per family chosen by the seed, the thorough tier all three) in the isolated worker under a valid configuration (core 2^34, length limit 2^30); it is a violation when the larger run takes more than 300 ms and more than 12 times the smaller one (linear: about 5, quadratic: 25) and still does after re-measuring both (best of three). Every case is non-trivial; distinct by (family, n)."
 
 func TestC05_Scaling(t *testing.T) {
 	if hx.Shard() != 0 {
